@@ -346,7 +346,7 @@ where
 
         let mut scratch: ScratchOwned<_> = ScratchOwned::alloc(self.vec_znx_rotate_assign_tmp_bytes());
 
-        let k_pos: usize = ((k + two_n_ext as i64) % two_n_ext as i64) as usize;
+        let k_pos: usize = k.rem_euclid(two_n_ext as i64) as usize;
 
         let k_hi: usize = k_pos / extension_factor;
         let k_lo: usize = k_pos % extension_factor;
